@@ -1227,7 +1227,8 @@ class MChild(Monitor):
         if self.form in ("sync-timeout", "sync-terminated"):
             td = engs[0].task_dispatcher
             cur = set(k for k, v in td.cancellers.items() if v.get("Execution") == self.child) | set(k for k, v in td.pending_requests.items() if v[1] == self.child)
-            gone = self.timeout_step is not None or (self.form == "sync-terminated" and self._parent_failed(w))
+            # (the parent is also gone when its *execution* has ended - e.g. by the machine-level time-out - without a TaskTimedOut event)
+            gone = self.timeout_step is not None or (self.form in ("sync-terminated", "sync-timeout") and self._parent_failed(w))
             if gone and not getattr(self, "gone_seen", False):
                 self.gone_seen = True
                 # what the child was blocked on when the parent task timed out / was terminated must have been cancelled in that very step
@@ -1324,6 +1325,22 @@ class MRoute(Monitor):
         self.requests = {}       # correlation id -> connection name that issued it
         self.sync_children = set()
         self.child_form = scenario.get("child_form")
+        # state machines that some definition of the scenario launches asynchronously (states:startExecution without .sync /
+        # .waitForTaskToken) and never synchronously: their start events are ordinary start events
+        asyn, syn = set(), set()
+        def walk(x):
+            if isinstance(x, dict):
+                res = x.get("Resource")
+                if x.get("Type") == "Task" and isinstance(res, str) and ":states:startExecution" in res or (isinstance(res, str) and "startSyncExecution" in res):
+                    tgt = (x.get("Parameters") or {}).get("StateMachineArn")
+                    (asyn if res.endswith(":states:startExecution") else syn).add(tgt)
+                for v in x.values():
+                    walk(v)
+            elif isinstance(x, list):
+                for v in x:
+                    walk(v)
+        walk(scenario.get("machines", {}))
+        self.async_machines = asyn - syn
 
     def _flag(self, w, key, kind, detail, arn=None, site=None, **extra):
         if key in self.flagged:
@@ -1371,8 +1388,15 @@ class MRoute(Monitor):
                     iid = self._inst_id(w, conn)
                     if conn != "env" and rk != self.shared + "-" + str(iid):
                         self._flag(w, ("inst", arn), "event_published_to_other_instance", "instance %s published an event to %s" % (iid, rk), arn, op.get("site"))
-                    if not name and conn != "env" and str(w.cur_kind).startswith("api"):
+                    try:
+                        sm_of_event = ctx["StateMachine"]["Id"]
+                    except Exception:
+                        sm_of_event = None
+                    if not name and conn != "env" and (str(w.cur_kind).startswith("api") or arn in w.started):
+                        # (StartExecution hands its publish to the engine's loop: it can leave in a later 'call' step)
                         self._flag(w, ("apiinst", arn), "start_event_not_on_shared_queue", "StartExecution put the start event on %s" % rk, arn, op.get("site"))
+                    elif not name and conn != "env" and sm_of_event in self.async_machines:
+                        self._flag(w, ("asynclaunch", arn), "async_child_launch_on_instance_queue", "an asynchronous child execution (startExecution) was launched through %s instead of the shared queue" % rk, arn, op.get("site"))
                     elif not name and conn != "env":
                         self.sync_children.add(arn)
                         if self.child_form == "start" and ":execution:c:" in str(arn):
